@@ -265,7 +265,7 @@ def stage_lines(report, tier, rng, dist, runner):
 
 # ------------------------------------------------------------------ (d) real signals
 
-def stage_signals(report, tier, rng, dist):
+def stage_signals(report, tier, rng, dist, only=None):
     cfgs = []
     for backend in (['fork'] if tier == 'quick' else ['fork', 'fork', 'spawn']):
         for double in (False, True):
@@ -277,6 +277,8 @@ def stage_signals(report, tier, rng, dist):
     if tier == 'thorough':
         cfgs.append(dict(backend='serial', double=False, n=2, max_workers=1, wait_started=1))
         cfgs.append(dict(backend='fork', double=False, n=3, max_workers=2, wait_started=2, no_progress=False, no_top=False))
+    if only is not None:
+        cfgs = [{k: v for k, v in only.items() if k not in ('gatedir', 'storage', 'result_file')}]
     here = os.path.dirname(os.path.abspath(__file__))
     for cfg in cfgs:
         d = tempfile.mkdtemp(dir=subdir('sig'))
@@ -369,6 +371,8 @@ def run(prop, report, tier, seed, replay=None):
             v = monitor_interrupted(obs, inj.fired, f'replay at {inj.where}')
             if v:
                 report.violation(f'C14:{v[0]}', v[1], inp)
+        elif inp.get('level') == 'signal':
+            stage_signals(report, tier, rng, dist, only=inp['config'])
         report.coverage.update(evaluations=1, distinct_nontrivial=2, rule='replay', samples=[inp])
         return
     n_t, bad, samples = stage_ticks(report, tier, rng, dist)
